@@ -241,7 +241,7 @@ def classify(res):
 def main():
     drv.build()
     rep = common.Report("C14", "translation_validation")
-    n = 96 if rep.tier == "quick" else 600
+    n = 240 if rep.tier == "quick" else 1500
     fs = ilgen.corpus(1000 + rep.seed, n, profile="mixed", widths=(32, 8), extra=extra_dce)
     fs += ilgen.corpus(5000 + rep.seed, n // 3, profile="const", widths=(32,), extra=extra_dce)
     holed = ilgen.corpus(7000 + rep.seed, n // 3, profile="mixed", widths=(32,), extra=extra_dce)
